@@ -258,8 +258,10 @@ def gen_metamodel(rng, serial=0):
         # an id attribute on some classes (at most one along any inheritance path)
         if rng.random() < 0.35 and not (sup[c['name']] & has_id) and \
                 not any(c['name'] in sup[o] and o in has_id for o in sup):
-            c['features'].append({'kind': 'attr', 'name': f'id{k}', 'type': 'EString', 'many': False,
-                                  'unique': True, 'iD': True})
+            # (ids are mostly strings; an EInt id exercises the text form of id references, and the value 0 the
+            #  "equal to the default" corner of save)
+            c['features'].append({'kind': 'attr', 'name': f'id{k}', 'type': 'EString' if rng.random() < 0.7 else 'EInt',
+                                  'many': False, 'unique': True, 'iD': True})
             has_id.add(c['name'])
             k += 1
         for _ in range(rng.randrange(1, 5)):
@@ -372,6 +374,13 @@ def gen_model(rng, mm, fmt='xmi', size=None, odd_ids=False):
                     r = rng.random()
                     if r < 0.15:
                         continue                    # unset id
+                    if f['type'] == 'EInt':
+                        # (ids are unique in a document in their TEXT form, whatever their type)
+                        v = next(x for x in [0, 7, -3, 12, 100 + oid, 1000 + oid] if str(x) not in used_ids) \
+                            if rng.random() < 0.6 else 2000 + oid
+                        used_ids.add(str(v))
+                        script.append([f['name'], ['i', v]])
+                        continue
                     if odd_ids and r < 0.35:
                         v = _pick(rng, ODD_ID_VALUES)
                     else:
